@@ -23,6 +23,7 @@ type Clause struct {
 
 type LoopSpec struct {
 	Invariants []*Clause
+	Foreach    []*Clause // map range loops: foreach k int :: P(k) — P(key of this iteration) at every back edge, forall keys at exit
 	Steps      []*Clause // transition invariants: checked at every back edge, may use prev(e) = value at the loop head of this iteration
 	Decreases  *Clause
 }
@@ -479,6 +480,16 @@ func (db *SpecDB) LoadFile(file string, defaultPkg string) error {
 				ls = &LoopSpec{}
 				cur.Loops[n] = ls
 			}
+			if kind == "foreach" {
+				b := strings.TrimSpace(body)
+				lbl := ""
+				if strings.HasPrefix(b, "[") {
+					j := strings.IndexByte(b, ']')
+					lbl = b[:j+1]
+					b = strings.TrimSpace(b[j+1:])
+				}
+				body = lbl + " forall " + b
+			}
 			c, err := mkClause(rc, kind, body)
 			if err != nil {
 				return err
@@ -487,6 +498,8 @@ func (db *SpecDB) LoadFile(file string, defaultPkg string) error {
 			switch kind {
 			case "invariant":
 				ls.Invariants = append(ls.Invariants, c)
+			case "foreach":
+				ls.Foreach = append(ls.Foreach, c)
 			case "step":
 				ls.Steps = append(ls.Steps, c)
 			case "decreases":
